@@ -597,6 +597,7 @@ func TaskE(site string, f func() error) func() error {
 	}
 	st := NewStream(fmt.Sprintf("task:%s#%d", site, spawnIndex(site)))
 	return func() error {
+		defer Bind(st)()
 		st.Yield()
 		return f()
 	}
@@ -610,6 +611,7 @@ func Task(site string, f func()) func() {
 	}
 	st := NewStream(fmt.Sprintf("task:%s#%d", site, spawnIndex(site)))
 	return func() {
+		defer Bind(st)()
 		st.Yield()
 		f()
 	}
